@@ -123,3 +123,21 @@ claim("C02", category="fault_enumeration",
             "pre-state, a second connection reading inside one transaction just before the fault must see the pre-state, and get_wallet_summary interleaved with a "
             "committing writer (WAL) must return the pre- or post-state summary. Enumeration is over sampled positions of sampled pairs, not all of them."),
       note="Trusted: SQLite's own atomic commit below the commit boundary; SQLITE_INTERRUPT as the stand-in for statement-level failure (transaction-control statements are not interrupted half-way); account UUIDs and address row ids are normalised. store_decrypted_tx / store_transactions_to_be_sent / migration-store writes are not yet among the operations.")
+
+claim("C03",
+      technique="proptest round trip against an independent reference serialiser + layout-aware byte mutation (located counts/amounts, truncation, header swaps) + libFuzzer campaigns (tx_read, block_header) with consumed-prefix / fixed-point oracles",
+      text=("Generated transactions of every (version, branch) pair incl. shapes the repository generator never produces (empty bundles, 252-254 element counts, "
+            "script lengths across CompactSize forms, v6 with Ironwood) must serialise to the bytes of an independent reference serialiser, parse back field-by-field "
+            "equal with equal txid and auth commitment and re-serialise identically; v1-v4 txid = sha256d. Every located count field in each longer-than-minimal form, "
+            "counts of MAX+1, out-of-range amounts and every strict prefix must be rejected; all other mutations must parse to a fixed point or be rejected, never "
+            "panic, never read past the reported position. Block headers likewise with hash = sha256d of exactly the consumed bytes. The local zcash_encoding 0.5 "
+            "combinators are checked against an own CompactSize codec."),
+      note="Trusted: sha2, curve/field types; the registry zcash_encoding 0.4 that zcash_primitives links cannot be mutated in a worktree (Script::read stands in).")
+
+claim("C11",
+      technique="proptest differential against an independent ZIP 32 / BIP 32-44 derivation and a Require/Allow/Omit receiver model; exhaustive regression grid; trial decryption matrix",
+      text=("USK/UFVK/UIVK and legacy Sapling/transparent encodings round-trip to the same bytes and derive the same addresses; address(j, request) at every level "
+            "equals the address assembled from per-pool keys of the underlying crates with exactly the requested-and-supported receivers, errors occur exactly when "
+            "the model says, find_address returns the least valid index; keys recognise their own addresses (index, scope) and no stranger's; notes encrypted to a "
+            "derived Sapling/Orchard/Ironwood address decrypt (compact and full) under exactly the owner's key of the matching scope."),
+      note="Trusted: sapling-crypto and orchard ZIP 32 derivation as shielded reference, hashes and the secp256k1 group law. Behaviour beyond C11's statement (value equality of decoded ExternalIvk, empty child ranges, dependency panics on corrupted spending keys) is counted as observation, not asserted.")
